@@ -93,7 +93,7 @@ func entriesHarness(total, maxExt int) {
 		nd := rt.Choose("nd", total-nb+1)
 		b.DeltaCRL = &x509.RevocationList{RevokedCertificateEntries: mkEntries("d", nd, maxExt, &all)}
 	}
-	st := rt.Time("signing")
+	st := rt.TimeInLocs("signing", 2)
 	url := rt.AtomString("url")
 
 	res, err := checkRevocation(cert, b, st, url)
